@@ -41,13 +41,13 @@ func init() {
 
 // srcInfo caches the oracles for one source text.
 type srcInfo struct {
-	src    *ast.Source
-	li     *ref.LineIndex
-	starts map[int]ref.Tok // reference token starts
-	lexOK  bool
-	lexWhy string // why the reference lexer gave no frame of reference
-	failAt, failEnd int // reference lexer failed: extent [start of the failing lexeme, character that rules it out]; -1 otherwise
-	runes  []rune
+	src             *ast.Source
+	li              *ref.LineIndex
+	starts          map[int]ref.Tok // reference token starts
+	lexOK           bool
+	lexWhy          string // why the reference lexer gave no frame of reference
+	failAt, failEnd int    // reference lexer failed: extent [start of the failing lexeme, character that rules it out]; -1 otherwise
+	runes           []rune
 }
 
 func newSrcInfo(s *ast.Source) *srcInfo {
@@ -676,7 +676,7 @@ func c04Check(x *core.Ctx, c *core.Case) {
 			x.Count("badutf8:nothing-invalid")
 		}
 		type tk struct {
-			kind                   lexer.Type
+			kind                  lexer.Type
 			start, end, line, col int
 		}
 		lexAll := func(in string) (out []tk, errAt string) {
